@@ -13,7 +13,7 @@ ap.add_argument('--only', default='')
 ap.add_argument('--refactor', default='')
 ap.add_argument('--seed', type=int, default=1)
 a = ap.parse_args()
-env = dict(os.environ, GOFLAGS='-mod=mod', GOPROXY='off', GOSUMDB='off', GOTOOLCHAIN='local')
+env = dict(os.environ, GOFLAGS='-mod=mod -trimpath', GOPROXY='off', GOSUMDB='off', GOTOOLCHAIN='local')
 env.pop('GOWORK', None)
 random.seed(a.seed)
 
